@@ -76,6 +76,9 @@ def _run_one(args: tuple[str, int, str]) -> dict:
     }
 
 
+_BASE_CACHE: dict = {}
+
+
 def _run_patch(args: tuple[str, str, str]) -> dict:
     """Replay one committed patch (seeded change or refactoring) in memory and report what this check says about it."""
     from pathlib import Path
@@ -88,7 +91,9 @@ def _run_patch(args: tuple[str, str, str]) -> dict:
         overlay = apply_diff(Path(root), Path(patch_path).read_text())
     except (PatchError, OSError) as e:
         return {"name": name, "status": "does-not-apply", "detail": str(e)[:200]}
-    base = _failing(prop, Program(root), "quick")
+    if (prop, root) not in _BASE_CACHE:  # the unpatched tree is analysed once per worker process
+        _BASE_CACHE[(prop, root)] = _failing(prop, Program(root), "quick")
+    base = _BASE_CACHE[(prop, root)]
     mut = _failing(prop, Program(root, overlay=overlay), "quick")
     if isinstance(base, str) or isinstance(mut, str):
         return {"name": name, "status": "analysis-error", "detail": str(mut if isinstance(mut, str) else base)[:200]}
